@@ -360,7 +360,17 @@ def _check_sort_sites(repo: Repo, L: Ledger, cls, keyf: Func):
         from ..util import param_default
 
         d = param_default(init, "rank")
-        dv = try_fold(d, default="?") if d is not None else "?"
+        # defaults are evaluated in the class body: class-level and module-level constants are visible
+        from ..finite import module_consts
+
+        env_d = dict(module_consts(scf.module))
+        for nm_, val_ in scf.attrs.items():
+            v_ = try_fold(val_, env=dict(env_d), default=NotImplemented)
+            if v_ is not NotImplemented:
+                env_d[nm_] = v_
+        dv = try_fold(d, env=env_d, default="?") if d is not None else "?"
+        if dv == "?" and d is not None:
+            raise AnalysisError(f"Scaffold.__init__: default of 'rank' ('{norm(d)}') does not fold to a constant")
         stores = [n for n in walk_shallow(init.node) if isinstance(n, ast.Assign) and any(norm(t) == "self.rank" for t in n.targets)]
         plain = len(stores) == 1 and norm(stores[0].value) == "rank"
         L.check(
